@@ -51,6 +51,10 @@ def _models(tier):
       feature_configs=[_fc('a', monotonicity='increasing', nk=nk), _fc('b', monotonicity='decreasing', nk=3)], use_bias=True,
       output_min=0.0, output_max=1.0, output_initialization=[0.0, 1.0])),
             [('a', 'increasing'), ('b', 'decreasing')], (0.0, 1.0), dict(b=[0.0, 1.0, 2.0])))
+  M.append(('calibrated-linear-bounds-off-zero', lambda: P.CalibratedLinear(C.CalibratedLinearConfig(
+      feature_configs=[_fc('a', monotonicity='increasing', nk=nk), _fc('b', nk=nk)], use_bias=False,
+      output_min=1.0, output_max=2.0, output_initialization=[1.0, 2.0])),
+            [('a', 'increasing')], (1.0, 2.0)))
   M.append(('calibrated-linear-dominance', lambda: P.CalibratedLinear(C.CalibratedLinearConfig(
       feature_configs=[_fc('a', monotonicity='increasing', nk=nk, dominates=[C.DominanceConfig(feature_name='b', dominance_type='monotonic')]),
                        _fc('b', monotonicity='increasing', nk=nk), _fc('c', nk=nk)], use_bias=False, output_initialization=[0.0, 1.0])),
@@ -232,10 +236,19 @@ def case_model(**p):
   case.record('initial-weights-satisfy-their-constraints', 'sat' if init_bad else 'unsat', kind='structural', witness={},
               replay=dict(fn='model-init', params=p), sig=dict(query='init', model=label), note=', '.join(init_bad)[:200] or 'all constrained variables')
 
+  lin_norm_vars = []
+
+  def bounds_sig(m):
+    # a normalised Linear kernel that is identically zero (the constraint leaves it alone) is the recorded known finding
+    zero = bool(lin_norm_vars) and all(all((lambda v_: v_ is not None and v_ == 0)(sym.subst_value(e, m)) for e in np.asarray(a, dtype=object).reshape(-1))
+                                       for a in lin_norm_vars)
+    return dict(query='bounds', model=label, normalised_linear_kernel_all_zero=zero)
+
   def fresh():
     sym.new_ctx()
     vv, wit, assume, kinds = {}, {}, [], {}
     post = []
+    lin_norm_vars[:] = []
     for i, v in enumerate(tr.variables):
       if not v.trainable:
         kinds[v.name] = 'not trainable: fixed at its initial value'
@@ -243,6 +256,8 @@ def case_model(**p):
       s = sym.symbolic('v%d' % i, tuple(v.shape))
       preds, kind = constraint_predicates(v, s)
       kinds[v.name] = kind
+      if kind == 'LinearConstraints' and getattr(v.constraint, 'normalization_order', None):
+        lin_norm_vars.append(s)
       if preds is None:
         post.append((v, s))
       else:
@@ -326,7 +341,13 @@ def case_model(**p):
         bb = ([sym.s_cmp('lt', o[0], Fraction(bounds[0]))] if bounds[0] is not None else []) + \
              ([sym.s_cmp('gt', o[0], Fraction(bounds[1]))] if bounds[1] is not None else [])
         case.solve('model-output-within-bounds[%s%s]' % ('' if not combo else 'cat=%s' % list(combo), ptag), core.any_of(bb), witness=w2, timeout=tmo,
-                   sig=dict(query='bounds', model=label), replay=dict(fn='model', params=p, feature=None, var_names=var_names), required=p.get('required', True))
+                   sig=bounds_sig, replay=dict(fn='model', params=p, feature=None, var_names=var_names), required=p.get('required', True))
+        if lin_norm_vars:
+          # the recorded finding (all-zero normalised kernel) must not hide anything else: same question for unit-norm kernels
+          unit = [sym.EQ(t, 1) for a in lin_norm_vars for t in c06.norm_terms(a, 1)]
+          case.solve('model-output-within-bounds-for-unit-norm-weights[%s%s]' % ('' if not combo else 'cat=%s' % list(combo), ptag), core.any_of(bb),
+                     assumptions=unit, witness=w2, timeout=tmo, sig=bounds_sig,
+                     replay=dict(fn='model', params=p, feature=None, var_names=var_names), required=p.get('required', True))
     # sabotage twin: without the weight assumptions the goal is violable
     if gi == 0:
       sym.new_ctx()
